@@ -47,6 +47,13 @@ def _run(pid, tier, tags, level_assumptions, conc=False):
         ck.take(doc)
         os.unlink(p)
     if conc:
+        # no entry is orphaned whatever the client does (no discipline): newRef is atomic; the check-then-act variant orphans one
+        for cfg, expect in (("FidConc_nodisc.cfg" if tier == "quick" else "FidConc_nodisc3.cfg", None), ("FidConc_nonatomic.cfg", "NoOrphanEntry")):
+            rc = tlc("fid", "FidConc", cfg, workers=16, timeout=1500)
+            if (expect is None and not rc.ok) or (expect is not None and rc.violation != expect):
+                raise vlib.Inconclusive("FidConc %s: expected %s, TLC says %s\n%s" % (cfg, expect or "no violation", rc.violation, rc.out[-2000:]))
+            ck.add_cov(states=rc.distinct, transitions=rc.generated)
+            ck.cov["tlc_runs"].append({"cfg": cfg, "expected_violation": expect, **rc.summary()})
         # release accounting under concurrency: the directed interleavings (a second request queued on the fid's lock while the
         # first is parked inside the file system) and random workloads, judged by FidLin's NoUseAfterRelease
         tp = os.path.join(OUT, "fidconc13-%d.ndjson" % os.getpid())
